@@ -249,10 +249,84 @@ func c05Catalog() []progInput {
 	return out
 }
 
+// c05Limits builds programs on both sides of every size/count limit.
+func c05Limits() []progInput {
+	g := uint32(scriptflag.UTXOAfterGenesis)
+	rep := func(b []byte, n int) []byte {
+		out := make([]byte, 0, len(b)*n)
+		for i := 0; i < n; i++ {
+			out = append(out, b...)
+		}
+		return out
+	}
+	blob := func(n int, seed byte) []byte {
+		v := make([]byte, n)
+		for i := range v {
+			v[i] = seed + byte(i*31)
+		}
+		if n > 0 {
+			v[n-1] = 0x01
+		}
+		return v
+	}
+	var out []progInput
+	add := func(u, l []byte, src string) {
+		for _, f := range []uint32{0, g} {
+			out = append(out, progInput{Unlock: u, Lock: l, Flags: f, Ctx: defaultCtx(), Src: "limits:" + src})
+		}
+	}
+	// operation count: 499 / 500 / 501 / 502 non-push opcodes
+	for _, k := range []int{498, 499, 500, 501} {
+		add([]byte{0x51}, rep([]byte{0x61}, k), "op-count")                                     // k NOPs
+		add([]byte{0x51}, append([]byte{0x00, 0x63}, append(rep([]byte{0x61}, k-2), 0x68)...), "op-count") // counted although skipped: IF + NOPs + ENDIF
+	}
+	// stack depth: 999 / 1000 / 1001 items, split between data and alt stack
+	for _, k := range []int{999, 1000, 1001} {
+		add(nil, rep([]byte{0x51}, k), "stack-depth")
+		add(nil, append(rep([]byte{0x51, 0x6b}, k/2), rep([]byte{0x51}, k-k/2)...), "stack-depth")
+		add(nil, append(rep([]byte{0x51}, k-1), 0x76), "stack-depth")
+	}
+	// element size: 519 / 520 / 521 bytes pushed, concatenated, and produced by NUM2BIN
+	for _, k := range []int{519, 520, 521, 522} {
+		add(gen.Push(blob(k, 3)), []byte{0x82, 0x75}, "element-size") // SIZE DROP
+		add(append(gen.Push(blob(260, 5)), gen.Push(blob(k-260, 7))...), []byte{0x7e, 0x82, 0x75}, "element-size")
+		add(append([]byte{0x51}, gen.PushNum(int64(k))...), []byte{0x80, 0x82, 0x75}, "element-size")
+		add([]byte{0x00, 0x63}, append(gen.Push(blob(k, 9)), 0x68, 0x51), "element-size") // oversized push in an unexecuted branch
+	}
+	// script size: 9 999 / 10 000 / 10 001 bytes
+	for _, k := range []int{9999, 10000, 10001} {
+		body := rep(append(gen.Push(blob(515, 11)), 0x75), 19) // 19 x (518+1+... ) bytes
+		for len(body) < k-1 {
+			body = append(body, 0x61)
+		}
+		body = body[:k-1]
+		add(nil, append(body, 0x51), "script-size")
+		add(append(append([]byte{}, body[:k-1]...), 0x51), []byte{0x51}, "script-size")
+	}
+	// numeric operand width: 4 / 5 bytes before Genesis, 750 000 / 750 001 after
+	for _, k := range []int{3, 4, 5} {
+		v := blob(k, 13)
+		add(gen.Push(v), []byte{0x8b, 0x75, 0x51}, "number-width") // 1ADD
+		add(append(gen.Push(v), gen.Push(v)...), []byte{0x93, 0x75, 0x51}, "number-width")
+		add(append(gen.Push(v), 0x51), []byte{0x7f, 0x6d, 0x51}, "number-width") // SPLIT position 1, operand wide
+	}
+	for _, k := range []int{749999, 750000, 750001} {
+		v := blob(k, 17)
+		if k > 750000 { // the library parses big numbers in quadratic time: only the rejected width is fed to an arithmetic opcode
+			out = append(out, progInput{Unlock: gen.Push(v), Lock: []byte{0x8b, 0x82, 0x75, 0x75, 0x51}, Flags: g, Ctx: defaultCtx(), Src: "limits:number-width-post"})
+		}
+		out = append(out, progInput{Unlock: gen.Push(v), Lock: []byte{0x81, 0x82, 0x75, 0x75, 0x51}, Flags: g, Ctx: defaultCtx(), Src: "limits:number-width-post"})
+	}
+	// results may exceed the operand width, using them as operands again may not
+	add(append(gen.Push([]byte{0xff, 0xff, 0xff, 0x7f}), gen.Push([]byte{0xff, 0xff, 0xff, 0x7f})...), []byte{0x93, 0x82, 0x75, 0x75, 0x51}, "number-width")
+	add(append(gen.Push([]byte{0xff, 0xff, 0xff, 0x7f}), gen.Push([]byte{0xff, 0xff, 0xff, 0x7f})...), []byte{0x93, 0x8b, 0x75, 0x51}, "number-width")
+	return out
+}
+
 func init() {
 	p := &mon.Property{
 		ID: "C05",
-		Rule: "Programs from six sources: the node's own script vectors; every opcode applied to every tuple of a fixed edge-operand set (arity from a table; both eras; MINIMALDATA on/off); LSHIFT/RSHIFT over operands of 1,2,3,8 bytes with every count 0..8n+1; a hand-written catalog around rules that are easy to get wrong; all 2^9 subsets of the non-signature flags on a core set; PRNG-driven structured programs (typed generator with nested IF/NOTIF/ELSE/ENDIF, OP_RETURN, alt stack, splice/bitwise/shift/arithmetic/hash, CLTV/CSV operands, P2SH wrappers) and byte-level mutations of the node vectors. " +
+		Rule: "Programs from six sources: the node's own script vectors; every opcode applied to every tuple of a fixed edge-operand set (arity from a table; both eras; MINIMALDATA on/off); LSHIFT/RSHIFT over operands of 1,2,3,8 bytes with every count 0..8n+1; a hand-written catalog around rules that are easy to get wrong; programs sitting exactly on and one beyond every consensus limit of each era (500 operations, 1000 stack items, 520-byte elements, 10,000-byte scripts, 4-byte / 750,000-byte numeric operands); all 2^9 subsets of the non-signature flags on a core set; PRNG-driven structured programs (typed generator with nested IF/NOTIF/ELSE/ENDIF, OP_RETURN, alt stack, splice/bitwise/shift/arithmetic/hash, CLTV/CSV operands, P2SH wrappers) and byte-level mutations of the node vectors. " +
 			"Each program is executed by the real interpreter with a recording Debugger (public API) and by the reference model; verdict and data/alt stacks after every instruction are compared. " +
 			"distinct_nontrivial = distinct (unlock, lock, flags) whose execution processed >= 3 instructions including an executed non-push opcode, produced a non-empty stack, and on which both interpreters agreed.",
 		Assum: []string{"reference model /verif/internal/refscript = transcription of the node's EvalScript/VerifyScript, re-validated each run against the node's script_tests.json",
@@ -276,6 +350,13 @@ func init() {
 		}
 		c.Phase("catalog")
 		for i, in := range c05Catalog() {
+			if c.Case(uint64(i)) {
+				in := in
+				judge(c, &in)
+			}
+		}
+		c.Phase("limits") // programs sitting exactly on the consensus limits of each era, and one beyond
+		for i, in := range c05Limits() {
 			if c.Case(uint64(i)) {
 				in := in
 				judge(c, &in)
